@@ -316,6 +316,11 @@ func (cs *caseState) inner(ctx *fasthttp.RequestCtx) {
 		}
 	}
 	defer cs.gauge.Add(-1)
+	defer func() {
+		if v := recover(); v != nil {
+			st.latePanic.Store(fmt.Sprintf("%v", v))
+		}
+	}()
 	st.started.Store(true)
 	switch st.plan.Kind {
 	case "wfast":
@@ -731,7 +736,7 @@ func runCase(plan casePlan, seedRnd *rand.Rand) (cs *caseState, probs []problem,
 		for k, st := range cst.reqs {
 			name := fmt.Sprintf("conn %d request %d (%s %s)", c, k, st.plan.Method, st.plan.Kind)
 			if v := st.latePanic.Load(); v != nil {
-				add("panic-late-handler", name+": late handler panicked: "+v.(string))
+				add("panic-in-handler", name+": handler goroutine panicked: "+v.(string))
 			}
 			if st.entered != 1 {
 				key := "followup-not-served"
@@ -916,7 +921,9 @@ func TestC16(t *testing.T) {
 		r.Event("late_steps_executed", steps)
 		r.Event("responses_checked", checked)
 		r.Event("followups_after_timeout_served", followups)
-		r.Event("gauge_max_"+fmt.Sprint(cs.gaugeMax.Load() >= int64(cs.effC)), 1)
+		if cs.gaugeMax.Load() >= int64(cs.effC) {
+			r.Event("cases_with_all_slots_in_use", 1)
+		}
 		if r.WantSample() && timeouts > 0 {
 			r.Sample(map[string]any{"plan": plan, "wire_conn0": mon.Short(cs.conns[0].sc.Written(), 700), "timeouts": timeouts, "late_steps": steps})
 		}
